@@ -371,6 +371,15 @@ func (c C04) crashPoint(sc *drv.Scenario, w *drv.World, j, n int, side string, b
 		}
 		return v, err
 	}
+	if sc.Knobs.MutLogJSON {
+		if v, err := r2.x.CheckMutationLogs("C04"); err != nil || v != nil {
+			if v != nil {
+				v.Sig = "continuing after " + opSide(op, side) + ": " + v.Sig
+				v.Detail = what + "\n" + v.Detail
+			}
+			return v, err
+		}
+	}
 	// ---- torn JSON mutation log ----
 	if sc.Knobs.MutLogJSON {
 		if v, err := c.tornJSONLog(cw, r2.x, what); err != nil || v != nil {
